@@ -3,6 +3,7 @@ package props
 import (
 	"encoding/hex"
 	"fmt"
+	"io"
 	"os"
 	"runtime"
 	"strings"
@@ -11,6 +12,8 @@ import (
 	"time"
 
 	"github.com/spf13/afero"
+
+	pfs "github.com/xakep666/ps3netsrv-go/pkg/fs"
 	"pgregory.net/rapid"
 
 	"github.com/xakep666/ps3netsrv-go/verif/hx"
@@ -121,12 +124,12 @@ func c13Scenarios() []c13Scenario {
 
 type c13Case struct {
 	Scenario string `json:"scenario"`
-	// Mode: baseline | fail-op | short-read | partial-read | partial-list | ending | pair
+	// Mode: baseline | fail-op | short-read | partial-read | partial-eof | partial-list | ending | pair
 	Mode   string `json:"mode"`
-	K      int    `json:"k"`      // op / read index, or prefix length for endings
-	K2     int    `json:"k2"`     // second fault (pair) ; -1 none
-	Errno  int    `json:"errno"`  // injected error
-	Ending string `json:"ending"` // halfclose | close | rst | truncated | unknown | timeout
+	K      int    `json:"k"`                // op / read index, or prefix length for endings
+	K2     int    `json:"k2"`               // second fault (pair) ; -1 none
+	Errno  int    `json:"errno"`            // injected error
+	Ending string `json:"ending"`           // halfclose | close | rst | truncated | unknown | timeout
 	PartN  int    `json:"part_n,omitempty"` // partial-list: entries handed out together with the error
 	// generated scenario (thorough): requests carried in the case
 	Reqs       []hx.Req `json:"reqs,omitempty"`
@@ -196,11 +199,16 @@ func runC13With(c c13Case, st *hx.Stats, readTimeout time.Duration) (*c13Result,
 		if c.Mode == "pair" {
 			led.FailAt2 = c.K2
 		}
-	case "partial-read":
+	case "partial-read", "partial-eof":
 		// the read comes back with some bytes AND an error
 		led.ShortAt = c.K
 		led.ShortTo = 1 + (c.K*977+c.Errno)%3000
 		led.ShortErr = syscall.EIO
+		if c.Mode == "partial-eof" {
+			// ... and the error is "end of file", although the file goes on (it was longer when it was measured):
+			// the missing bytes must not be made up
+			led.ShortErr = io.EOF
+		}
 	case "short-read":
 		led.ShortAt = c.K
 		led.ShortTo = 1 + c.K%37
@@ -226,6 +234,28 @@ func runC13With(c c13Case, st *hx.Stats, readTimeout time.Duration) (*c13Result,
 	m.Lenient = func() bool { return led.HasFired() }
 	pristine := map[string]bool{"/PS3ISO/g.iso": true, "/PS3ISO/r.iso": true, "/k3y.iso": true}
 	m.ObjFor = func(clean string) hx.Obj {
+		if strings.HasPrefix(clean, "/***DVD***/") || strings.HasPrefix(clean, "/***PS3***/") {
+			// a generated image: its content is what the library builds from the same directory without any fault
+			// (read here directly from the disk, past the fault layer), compared under the C18 mask. Histories
+			// that change the tree leave only the length to judge.
+			ps3 := strings.HasPrefix(clean, "/***PS3***/")
+			for _, r := range sc.Reqs {
+				switch r.Op {
+				case "CREATE", "DELETE", "RMDIR", "MKDIR", "WRITE":
+					return nil
+				}
+			}
+			f, err := (&pfs.FS{Fs: afero.NewBasePathFs(afero.NewOsFs(), root)}).Open(clean)
+			if err != nil {
+				return nil
+			}
+			defer f.Close()
+			img, err := io.ReadAll(io.LimitReader(f, 64<<20))
+			if err != nil || len(img) >= 64<<20 {
+				return nil
+			}
+			return maskedImage{data: img, ps3: ps3}
+		}
 		if !pristine[clean] {
 			return nil
 		}
@@ -440,6 +470,9 @@ func TestC13Enum(t *testing.T) {
 				if !yield(c13Case{Scenario: sc.Name, Mode: "partial-read", K: k, K2: -1, Errno: k * 7}) {
 					return
 				}
+				if !yield(c13Case{Scenario: sc.Name, Mode: "partial-eof", K: k, K2: -1, Errno: k * 7}) {
+					return
+				}
 			}
 			for p := 0; p <= len(sc.Reqs); p++ {
 				for _, e := range []string{"halfclose", "close", "rst", "truncated", "unknown", "timeout", "stalled"} {
@@ -496,7 +529,7 @@ func TestC13Random(t *testing.T) {
 			c.Mode, c.K = "short-read", rapid.IntRange(0, 40).Draw(t, "k")
 		case 2:
 			if rapid.Bool().Draw(t, "partial") {
-				c.Mode, c.K = "partial-read", rapid.IntRange(0, 40).Draw(t, "k")
+				c.Mode, c.K = rapid.SampledFrom([]string{"partial-read", "partial-eof"}).Draw(t, "partial-kind"), rapid.IntRange(0, 40).Draw(t, "k")
 			} else {
 				// failing directory reads hand out the entries read so far (other operations fail as usual)
 				c.Mode, c.K, c.Errno, c.PartN = "partial-list", rapid.IntRange(0, 120).Draw(t, "k"), int(syscall.EIO), rapid.IntRange(1, 5).Draw(t, "part_n")
